@@ -39,7 +39,7 @@ PROPS = {
 }
 
 EXHAUSTIVE_SUITES = {"gf": "all 2048 field elements x 15 data positions through polyseed_load",
-                     "store": "all 65536 values of bytes 8-9 and of bytes 30-31, all 256 of bytes 28, 29 and of each header byte",
+                     "store": "all 65536 values of bytes 8-9, of bytes 27-28 and of bytes 30-31, all 256 of bytes 28, 29 and of each header byte",
                      "bday": "both sides of all 1024 month boundaries",
                      "feat": "8 masks (+ high-bit arguments) x 32 feature values x 4 entry points",
                      "coin": "all 2048 coins (first language classes)",
